@@ -70,9 +70,9 @@ ReadStep(a, v) ==
             /\ UNCHANGED <<mem, known, lcd, dma>>
      [] OTHER -> UNCHANGED <<mem, known, lcd, dma>>
 
-\* time passes: timer and LCD registers move; a DMA completes within 162 cycles and leaves OAM with copied bytes
+\* time passes: timer and LCD registers move, the hardware may raise requests in IF; a DMA completes within 162 cycles and leaves OAM with copied bytes
 TickStep(n) ==
-   /\ Forget({65285, 65284, 65348} \cup (IF dma THEN {a \in known : a >= 65024 /\ a < 65184} ELSE {}))
+   /\ Forget({65285, 65284, 65348, 65295} \cup (IF dma THEN {a \in known : a >= 65024 /\ a < 65184} ELSE {}))
    /\ dma' = (dma /\ n < 162)
    /\ UNCHANGED lcd
 
